@@ -1,6 +1,10 @@
 // C02 harness: needles appended with the real Needle.Append to a backend.DiskFile (temp
 // file) after a prefix, read back with Needle.ReadData, scanned with
-// storage.ScanVolumeFileFrom, and read again after single-bit flips.
+// storage.ScanVolumeFileFrom (whole file and truncated), read again after byte flips
+// (every data byte, and directed at the size/flag bytes), and copied by a scan the way
+// Volume.Compact does (from the undamaged file and from a file with one byte altered).
+// raw.go: hand-framed records with arbitrary bodies; volume.go: the same through a real
+// storage.Volume with Volume.Compact + CommitCompact.
 package main
 
 import (
@@ -100,6 +104,8 @@ func readData(f backend.BackendStorageFile, off int64, size types.Size, v needle
 	return n, classify(err)
 }
 
+// ---------- scanning ----------
+
 type scanner struct {
 	visits []string
 	datas  [][]byte
@@ -112,6 +118,50 @@ func (s *scanner) VisitNeedle(n *needle.Needle, offset int64, h, b []byte) error
 	s.datas = append(s.datas, append([]byte(nil), n.Data...))
 	return nil
 }
+
+// scan runs ScanVolumeFileFrom; a run-time panic inside it ends the scan (panicked = true).
+func scan(version needle.Version, f backend.BackendStorageFile, off int64, vis storage.VolumeFileScanner) (panicked bool) {
+	var err error
+	func() {
+		defer func() {
+			if r := recover(); r != nil {
+				panicked = true
+			}
+		}()
+		err = storage.ScanVolumeFileFrom(version, f, off, vis)
+	}()
+	hx.Must(err) // an error return (as opposed to the decoder's run-time panic) is not modelled
+	return panicked
+}
+
+// copier does what VolumeFileScanner4Vacuum.VisitNeedle does with a needle it keeps: the new
+// index entry takes the size of the OLD header, then the needle is appended and the new
+// offset advances by the disk size of the recomputed size.
+type copier struct {
+	version   needle.Version
+	dst       backend.BackendStorageFile
+	newOffset int64
+	index     []string
+	offs      []int64
+	sizes     []types.Size
+	datas     [][]byte
+}
+
+func (c *copier) VisitSuperBlock(super_block.SuperBlock) error { return nil }
+func (c *copier) ReadNeedleBody() bool                          { return true }
+func (c *copier) VisitNeedle(n *needle.Needle, offset int64, h, b []byte) error {
+	c.datas = append(c.datas, append([]byte(nil), n.Data...))
+	c.index = append(c.index, fmt.Sprintf("(%d, %d)%%N", c.newOffset, uint32(n.Size)))
+	c.offs = append(c.offs, c.newOffset)
+	c.sizes = append(c.sizes, n.Size)
+	if _, _, _, err := n.Append(c.dst, c.version); err != nil {
+		return err
+	}
+	c.newOffset += n.DiskSize(c.version)
+	return nil
+}
+
+// ---------- generation ----------
 
 func pickLen(r *hx.Rng, big bool) int {
 	switch k := r.Intn(36); {
@@ -203,7 +253,54 @@ type flipRec struct {
 	mask     byte
 }
 
-func runCase(out *hx.Out, version needle.Version, prefix []byte, needles []*needle.Needle, flips func(offs []int64, sizes []types.Size, actual []int64) []flipRec, kind string) {
+// fieldBytes returns the record-relative positions of the bytes that steer the decoder:
+// header Size (12..15), DataSize (16..19), flags, NameSize, MimeSize, PairsSize, checksum.
+func fieldBytes(n *needle.Needle) (steer []int, sizeField []int) {
+	sizeField = []int{12, 13, 14, 15}
+	if len(n.Data) == 0 {
+		return []int{16, 17, 18, 19}, sizeField // checksum of the empty record
+	}
+	steer = append(steer, 16, 17, 18, 19)
+	pos := 20 + len(n.Data)
+	steer = append(steer, pos) // flags
+	pos++
+	if n.HasName() {
+		steer = append(steer, pos)
+		pos += 1 + int(n.NameSize)
+	}
+	if n.HasMime() {
+		steer = append(steer, pos)
+		pos += 1 + int(n.MimeSize)
+	}
+	if n.HasLastModifiedDate() {
+		pos += needle.LastModifiedBytesLength
+	}
+	if n.HasTtl() && n.Ttl != nil {
+		pos += needle.TtlBytesLength
+	}
+	if n.HasPairs() {
+		steer = append(steer, pos, pos+1)
+		pos += 2 + len(n.Pairs)
+	}
+	steer = append(steer, pos, pos+3) // checksum
+	return
+}
+
+type caseOpts struct {
+	kind    string
+	flips   bool // byte flips on one record
+	allBits bool // all 8 single-bit masks on every data byte (else one random bit each)
+	tscans  int  // number of truncated scans
+	clean   bool // a scan-based copy of the undamaged file
+	dirty   int  // scan-based copies after altering one byte
+	pick    int  // record to damage (-1: choose)
+	canon   string
+	// deterministic extras: rec, record-relative byte position, mask
+	fixedFlips  []flipRec
+	fixedCopies []flipRec
+}
+
+func runCase(out *hx.Out, r *hx.Rng, version needle.Version, prefix []byte, needles []*needle.Needle, o caseOpts) {
 	tmp, err := os.CreateTemp("", "c02-*.dat")
 	hx.Must(err)
 	defer os.Remove(tmp.Name())
@@ -228,6 +325,7 @@ func runCase(out *hx.Out, version needle.Version, prefix []byte, needles []*need
 		out.Count(fmt.Sprintf("flags:%02x", n.Flags), 1)
 		out.Count("datalen:"+bucket(len(n.Data)), 1)
 		out.Count(fmt.Sprintf("namelen:%s", bucket(len(n.Name))), 1)
+		out.Count("pairslen:"+bucket(len(n.Pairs)), 1)
 	}
 	end, _, _ := df.GetStat()
 	file := make([]byte, end)
@@ -260,36 +358,219 @@ func runCase(out *hx.Out, version needle.Version, prefix []byte, needles []*need
 	// files containing an out-of-contract record are not record-aligned: the scan runs into
 	// garbage sizes (outside the model) and is not compared
 	sc := &scanner{}
-	doScan := kind != "contract-violation"
+	doScan := o.kind != "contract-violation"
+	panicked := false
 	if doScan {
-		hx.Must(storage.ScanVolumeFileFrom(version, df, int64(len(prefix)), sc))
+		panicked = scan(version, df, int64(len(prefix)), sc)
 		for _, d := range sc.datas {
 			addOracle(d)
 		}
 	}
+	// the record to damage: prefer one with 1..64 data bytes
+	k := o.pick
+	if k < 0 && len(needles) > 0 {
+		k = r.Intn(len(needles))
+		for t := 0; t < len(needles) && (len(needles[k].Data) == 0 || len(needles[k].Data) > 64); t++ {
+			k = (k + 1) % len(needles)
+		}
+	}
+	alter := func(pos int, mask byte, f func()) {
+		b := []byte{file[pos] ^ mask}
+		_, err := df.WriteAt(b, int64(pos))
+		hx.Must(err)
+		f()
+		b[0] = file[pos]
+		_, err = df.WriteAt(b, int64(pos))
+		hx.Must(err)
+	}
 	var flipTerms []string
-	if flips != nil {
-		for _, f := range flips(offs, sizes, actuals) {
+	if o.flips && doScan && k >= 0 {
+		n := needles[k]
+		var fs []flipRec
+		base := int(offs[k])
+		if l := len(n.Data); l > 0 && l <= 64 {
+			for p := 0; p < l; p++ {
+				if o.allBits {
+					for b := uint(0); b < 8; b++ {
+						fs = append(fs, flipRec{k, base + 20 + p, 1 << b})
+					}
+				} else {
+					fs = append(fs, flipRec{k, base + 20 + p, 1 << uint(r.Intn(8))})
+				}
+			}
+			// any non-zero mask, not only single bits
+			for t := 0; t < 4; t++ {
+				fs = append(fs, flipRec{k, base + 20 + r.Intn(l), byte(1 + r.Intn(255))})
+			}
+			p := r.Intn(l)
+			for b := uint(0); b < 8; b++ {
+				fs = append(fs, flipRec{k, base + 20 + p, 1 << b})
+			}
+		}
+		steer, sizeField := fieldBytes(n)
+		for _, p := range steer {
+			if p < int(actuals[k]) {
+				fs = append(fs, flipRec{k, base + p, 1}, flipRec{k, base + p, 1 << uint(r.Intn(8))}, flipRec{k, base + p, byte(1 + r.Intn(255))})
+			}
+		}
+		for _, p := range sizeField {
+			fs = append(fs, flipRec{k, base + p, 1 << uint(r.Intn(8))})
+		}
+		for t := 0; t < 4; t++ {
+			fs = append(fs, flipRec{k, base + r.Intn(int(actuals[k])), 1 << uint(r.Intn(8))})
+		}
+		for _, f := range fs {
 			if f.pos < 0 || f.pos >= len(file) {
 				continue
 			}
-			b := []byte{file[f.pos] ^ f.mask}
-			_, err = df.WriteAt(b, int64(f.pos))
-			hx.Must(err)
-			got, st := readData(df, offs[f.rec], sizes[f.rec], version)
-			b[0] = file[f.pos]
-			_, err = df.WriteAt(b, int64(f.pos))
-			hx.Must(err)
-			flipTerms = append(flipTerms, fmt.Sprintf("{| f_rec := %d; f_pos := %d; f_mask := %d; f_crc := %d; f_status := %d |}",
-				f.rec, f.pos, f.mask, uint32(needle.NewCRC(got.Data)), st))
-			out.Count(fmt.Sprintf("flip-status:%d", st), 1)
+			alter(f.pos, f.mask, func() {
+				got, st := readData(df, offs[f.rec], sizes[f.rec], version)
+				flipTerms = append(flipTerms, fmt.Sprintf("{| f_rec := %d; f_pos := %d; f_mask := %d; f_crc := %d; f_status := %d |}",
+					f.rec, f.pos, f.mask, uint32(needle.NewCRC(got.Data)), st))
+				out.Count(fmt.Sprintf("flip-status:%d", st), 1)
+				if f.pos >= base+20 && f.pos < base+20+len(n.Data) {
+					out.Count("flip:data-byte", 1)
+				}
+			})
 			canon = append(canon, fmt.Sprintf("F%d.%d.%d", f.rec, f.pos, f.mask))
 		}
 	}
-	term := fmt.Sprintf("{| c_version := %d; c_prefix := %s; c_needles := %s; c_crcs := %s; c_crc_empty := %d; c_crc_extra := %s; c_flips := %s; c_do_scan := %s; i_file := %s; i_appends := %s; i_reads := %s; i_scan := %s |}",
+	for _, f := range o.fixedFlips {
+		f := f
+		p := int(offs[f.rec]) + f.pos
+		alter(p, f.mask, func() {
+			got, st := readData(df, offs[f.rec], sizes[f.rec], version)
+			flipTerms = append(flipTerms, fmt.Sprintf("{| f_rec := %d; f_pos := %d; f_mask := %d; f_crc := %d; f_status := %d |}",
+				f.rec, p, f.mask, uint32(needle.NewCRC(got.Data)), st))
+			out.Count(fmt.Sprintf("flip-status:%d", st), 1)
+		})
+	}
+	// truncated scans
+	var tscanTerms []string
+	if doScan && len(needles) > 0 {
+		for t := 0; t < o.tscans; t++ {
+			j := len(needles) - 1
+			if r.Chance(1, 4) {
+				j = r.Intn(len(needles))
+			}
+			a := int(actuals[j])
+			var cut int
+			switch r.Intn(6) {
+			case 0:
+				cut = r.Range(1, 15)
+			case 1:
+				cut = 16
+			case 2:
+				cut = 16 + int(sizes[j]) // body there, checksum missing
+			case 3:
+				cut = a - 1
+			case 4:
+				cut = a - r.Range(1, 8)
+			default:
+				cut = r.Range(1, a-1)
+			}
+			if cut >= a {
+				cut = a - 1
+			}
+			L := offs[j] + int64(cut)
+			hx.Must(df.Truncate(L))
+			ts := &scanner{}
+			if scan(version, df, int64(len(prefix)), ts) {
+				panic("truncated scan panicked")
+			}
+			_, err = df.WriteAt(file[L:], L)
+			hx.Must(err)
+			for _, d := range ts.datas {
+				addOracle(d)
+			}
+			tscanTerms = append(tscanTerms, fmt.Sprintf("{| t_len := %d; t_visits := %s |}", L, hx.List(ts.visits)))
+			canon = append(canon, fmt.Sprintf("T%d", L))
+			out.Count(fmt.Sprintf("tscan:visits-%d-of-%d", len(ts.visits), len(needles)), 1)
+		}
+	}
+	// scan-based copies
+	var copyTerms []string
+	doCopy := func(rec, pos int, mask byte) {
+		dtmp, err := os.CreateTemp("", "c02-*.cpd")
+		hx.Must(err)
+		defer os.Remove(dtmp.Name())
+		dst := backend.NewDiskFile(dtmp)
+		defer dst.Close()
+		npre := append([]byte(nil), prefix...)
+		if len(npre) >= 6 {
+			npre[5]++ // the compaction revision of a super block
+		}
+		if len(npre) > 0 {
+			_, err = dst.WriteAt(npre, 0)
+			hx.Must(err)
+		}
+		cp := &copier{version: version, dst: dst, newOffset: int64(len(npre))}
+		scan(version, df, int64(len(prefix)), cp)
+		for _, d := range cp.datas {
+			addOracle(d)
+		}
+		dend, _, _ := dst.GetStat()
+		dfile := make([]byte, dend)
+		if dend > 0 {
+			_, err = dst.ReadAt(dfile, 0)
+			hx.Must(err)
+		}
+		var rds []string
+		for i := range cp.offs {
+			got, st := readData(dst, cp.offs[i], cp.sizes[i], version)
+			addOracle(got.Data)
+			rds = append(rds, hx.Pair(coqDNeedle(got), hx.N(st)))
+			if i == rec && mask != 0 && rec < len(needles) && pos >= int(offs[rec])+20 && pos < int(offs[rec])+20+len(needles[rec].Data) {
+				out.Count(fmt.Sprintf("copy-of-altered-data:status-%d", st), 1)
+			}
+		}
+		copyTerms = append(copyTerms, fmt.Sprintf("{| r_rec := %d; r_pos := %d; r_mask := %d; r_npre := %s; r_file := %s; r_index := %s; r_reads := %s |}",
+			rec, pos, mask, pk(npre), pk(dfile), hx.List(cp.index), hx.List(rds)))
+		canon = append(canon, fmt.Sprintf("C%d.%d.%d", rec, pos, mask))
+	}
+	if doScan && o.clean {
+		doCopy(0, 0, 0)
+		out.Count("copy:clean", 1)
+	}
+	if doScan && k >= 0 {
+		n := needles[k]
+		for t := 0; t < o.dirty; t++ {
+			var pos int
+			if t == 0 && len(n.Data) > 0 {
+				pos = 20 + r.Intn(len(n.Data))
+				out.Count("copy:data-byte-altered", 1)
+			} else {
+				// anywhere but the header's Size field (a wrong Size desynchronises the scan: garbage sizes)
+				for {
+					pos = r.Intn(int(actuals[k]))
+					if pos < 12 || pos > 15 {
+						break
+					}
+				}
+				out.Count("copy:other-byte-altered", 1)
+			}
+			mask := byte(1 << uint(r.Intn(8)))
+			if r.Chance(1, 4) {
+				mask = byte(1 + r.Intn(255))
+			}
+			p := int(offs[k]) + pos
+			alter(p, mask, func() { doCopy(k, p, mask) })
+		}
+	}
+	for _, f := range o.fixedCopies {
+		f := f
+		p := int(offs[f.rec]) + f.pos
+		alter(p, f.mask, func() { doCopy(f.rec, p, f.mask) })
+	}
+	term := fmt.Sprintf("{| c_version := %d; c_prefix := %s; c_needles := %s; c_crcs := %s; c_crc_empty := %d; c_crc_extra := %s; c_flips := %s; c_do_scan := %s; c_scan_off := %d; c_recopies := %s; c_tscans := %s; c_raws := []; i_scan_panicked := %s; i_file := %s; i_appends := %s; i_reads := %s; i_scan := %s |}",
 		version, pk(prefix), hx.List(inTerms), "(["+strings.Join(crcs, "; ")+"]%N : list N)", uint32(needle.NewCRC(nil)),
-		hx.List(extra), hx.List(flipTerms), hx.Bool(doScan), pk(file), hx.List(appends), hx.List(reads), hx.List(sc.visits))
-	out.Add(term, fmt.Sprintf("v%d|p%d|%s", version, len(prefix), strings.Join(canon, "|")), nontrivial, kind)
+		hx.List(extra), hx.List(flipTerms), hx.Bool(doScan), len(prefix), hx.List(copyTerms), hx.List(tscanTerms), hx.Bool(panicked),
+		pk(file), hx.List(appends), hx.List(reads), hx.List(sc.visits))
+	cn := fmt.Sprintf("v%d|p%d|%s", version, len(prefix), strings.Join(canon, "|"))
+	if o.canon != "" {
+		cn = o.canon
+	}
+	out.Add(term, cn, nontrivial, o.kind)
 }
 
 func bucket(n int) string {
@@ -306,27 +587,75 @@ func bucket(n int) string {
 		return "254-255"
 	case n < 1000:
 		return "256-999"
+	case n < 65535:
+		return "1000-65534"
 	}
-	return ">=1000"
+	return ">=65535"
+}
+
+var sb = []byte{3, 0, 0, 0, 0, 0, 0, 0}
+
+func mk(id uint64, cookie uint32, data string, flags byte) *needle.Needle {
+	n := &needle.Needle{Id: types.NeedleId(id), Cookie: types.Cookie(cookie), Data: []byte(data), Flags: flags}
+	n.Checksum = needle.NewCRC(n.Data)
+	return n
 }
 
 func main() {
 	flag.Set("logtostderr", "true")
 	out := hx.Flags("C02", 300)
-	out.Rule = "each case: a temp file with an 8-byte (sometimes 0/16-byte) prefix and 1..5 needles appended by Needle.Append; a running counter (shard*n+i) walks flags(128) x version(2,3); name and mime lengths are drawn from {0,1,7,8,9,254,255}; data length 0, 1..16, {1,7,8,9,15,16,17,255,256,257}, 0..300, sometimes 4095..4097; random cookie/id/last-modified/ttl/pairs/appendAtNs with boundary values; 1 case in 25 violates the writer's contract (mime/name >= 256, nil TTL with flag, PairsSize mismatch, LastModified >= 2^40); every 3rd case flips one random bit at every data byte of a record with <= 64 data bytes plus 4 random positions of the record; the first two cases are the empty-payload witness; non-trivial = a ReadData that succeeded with non-empty data; distinct = canonical needle list + flips"
+	out.Rule = "each case: a temp file with a prefix (8-byte super block; sometimes none, 16 bytes, or 1..23 unaligned bytes) and 1..5 needles appended by Needle.Append; a running counter (shard*n+i) walks flags(128) x version(2,3); name and mime lengths from {0,1,7,8,9,254,255}; data length 0, 1..16, {1,7,8,9,15,16,17,255,256,257}, 0..300, sometimes 4095..4097; pairs {0,1,2,17,255,256,300}; in shard 0 one needle with 65536+ data bytes and one with 65535 pairs bytes (more in the thorough tier); random cookie/id/last-modified/ttl/pairs/appendAtNs with boundary values; 1 case in 25 violates the writer's contract; every case: ReadData of every record and a whole-file scan; every 3rd case: byte flips on a record with <= 64 data bytes: every data byte (one random bit; all 8 bits in the thorough tier and for one byte; 4 random non-zero masks), the DataSize / flags / NameSize / MimeSize / PairsSize / checksum bytes (mask 1, a random bit, a random mask), the header Size bytes, 4 random positions; every 2nd case: 1-2 scans of the file truncated inside a record (header cut, header only, body only, last byte, random); every 2nd case a scan-based copy (every visited needle re-appended the way VolumeFileScanner4Vacuum does) of the undamaged file; every 3rd case two copies after altering one byte (a data byte; any byte outside the header Size field); every 8th case: hand-framed records (consistent header/length/padding) whose bodies are encodings cut at any length or with a steering byte changed, with a right or a random checksum: ReadData of each (plus wrong size, beyond EOF) and a scan; fixed first cases: 0-1 empty-payload witness, 2 real storage.Volume written, one data bit flipped, Volume.Compact + CommitCompact, read again (finding 1), 3 the same through the copying visitor (version 2), 4 DataSize flips that end in the decoder's run-time panic (ReadData and scan); non-trivial = a ReadData that succeeded with non-empty data; distinct = canonical needle list + flips/cuts/copies"
 	root := hx.NewRng(out.Seed)
 	shard := int(out.Seed % 1000)
-	sb := []byte{3, 0, 0, 0, 0, 0, 0, 0}
+	thorough := out.Tier == "thorough"
 	for i := 0; i < out.N; i++ {
 		r := root.Fork()
-		if i < 2 {
+		switch {
+		case i < 2:
 			// known finding 0: empty data, name and mime flagged: the metadata is not stored
 			w := &needle.Needle{Cookie: 7, Id: 1, Flags: needle.FlagHasName | needle.FlagHasMime | needle.FlagHasLastModifiedDate,
 				Name: []byte("a.txt"), Mime: []byte("text/plain"), LastModified: 1600000000, AppendAtNs: 5}
 			w.Checksum = needle.NewCRC(w.Data)
 			other := &needle.Needle{Cookie: 8, Id: 2, Data: []byte("x"), AppendAtNs: 6}
 			other.Checksum = needle.NewCRC(other.Data)
-			runCase(out, needle.Version(2+i), sb, []*needle.Needle{w, other}, nil, "witness-empty-payload")
+			runCase(out, r, needle.Version(2+i), sb, []*needle.Needle{w, other}, caseOpts{kind: "witness-empty-payload", pick: -1, clean: true, tscans: 1})
+			continue
+		case i == 2:
+			// known finding 1 on a real volume
+			runVolumeWitness(out)
+			continue
+		case i == 3:
+			// known finding 1 through the copying visitor: "hello" with the lowest bit of 'h' flipped
+			a, b := mk(1, 0x1234, "hello", 0), mk(2, 0x5678, "world!", 0)
+			a.AppendAtNs, b.AppendAtNs = 5, 6
+			runCase(out, r, needle.Version2, sb, []*needle.Needle{a, b}, caseOpts{kind: "witness-scan-copy-launders", pick: 0, clean: true,
+				fixedFlips: []flipRec{{0, 20, 1}}, fixedCopies: []flipRec{{0, 20, 1}}, canon: "witness-scan-copy-launders-v2"})
+			continue
+		case i == 4:
+			// the decoder's panic: flags-only body, DataSize 2 -> 3 makes n.Flags = bytes[len(bytes)]
+			a, b, c := mk(1, 1, "ab", 0), mk(2, 2, "abcd", 0x80), mk(3, 3, "tail", 0)
+			a.AppendAtNs, b.AppendAtNs, c.AppendAtNs = 1, 2, 3
+			runCase(out, r, needle.Version3, sb, []*needle.Needle{a, b, c}, caseOpts{kind: "directed-decoder-panic", pick: 0, tscans: 1,
+				fixedFlips: []flipRec{{0, 19, 1}, {1, 19, 1}, {2, 19, 1}, {0, 19, 2}, {0, 16, 128}},
+				fixedCopies: []flipRec{{1, 19, 1}, {0, 19, 2}}, canon: "directed-decoder-panic"})
+			continue
+		case shard == 0 && i == 5:
+			n := genNeedle(r, 3, false, false, out)
+			n.Data = r.Bytes(65536 + r.Intn(9))
+			n.Checksum = needle.NewCRC(n.Data)
+			runCase(out, r, needle.Version3, sb, []*needle.Needle{n}, caseOpts{kind: "big-data-64k", pick: -1, tscans: 1})
+			continue
+		case shard == 0 && i == 6:
+			n := genNeedle(r, 0x20|0x02, false, false, out)
+			n.Data = r.Bytes(9)
+			n.Checksum = needle.NewCRC(n.Data)
+			n.SetHasPairs()
+			n.Pairs = r.Bytes(65535)
+			n.PairsSize = 65535
+			runCase(out, r, needle.Version2, sb, []*needle.Needle{n, mk(9, 9, "after", 0)}, caseOpts{kind: "big-pairs-65535", pick: -1, tscans: 1, clean: true})
+			continue
+		case i%8 == 7:
+			runRawCase(out, r, needle.Version(2+r.Intn(2)), (shard*out.N+i)*5)
 			continue
 		}
 		g := (shard*out.N + i) * 3
@@ -343,36 +672,42 @@ func main() {
 			prefix = nil
 		case 1:
 			prefix = append(append([]byte{}, sb...), r.Bytes(8)...)
+		case 2:
+			prefix = append(append([]byte{}, sb...), r.Bytes(r.Range(1, 15))...) // records at unaligned offsets
 		}
 		var ns []*needle.Needle
 		for j := 0; j < cnt; j++ {
 			ns = append(ns, genNeedle(r, g+j, big, violate && j == 0, out))
 		}
-		kind := "append-read-scan"
-		var flips func(offs []int64, sizes []types.Size, actual []int64) []flipRec
-		if i%3 == 0 && !big {
-			kind = "append-read-scan-flip"
-			flips = func(offs []int64, sizes []types.Size, actual []int64) []flipRec {
-				var fs []flipRec
-				k := r.Intn(len(ns))
-				for t := 0; t < len(ns) && (len(ns[k].Data) == 0 || len(ns[k].Data) > 64); t++ {
-					k = (k + 1) % len(ns)
-				}
-				if l := len(ns[k].Data); l > 0 && l <= 64 {
-					for p := 0; p < l; p++ {
-						fs = append(fs, flipRec{k, int(offs[k]) + 20 + p, 1 << uint(r.Intn(8))})
-					}
-				}
-				for t := 0; t < 4; t++ {
-					fs = append(fs, flipRec{k, int(offs[k]) + r.Intn(int(actual[k])), 1 << uint(r.Intn(8))})
-				}
-				return fs
+		if thorough && r.Chance(1, 150) {
+			ns = ns[:1]
+			if r.Bool() {
+				ns[0].Data = r.Bytes(65536 + r.Intn(70000))
+				ns[0].Checksum = needle.NewCRC(ns[0].Data)
+			} else if len(ns[0].Data) > 0 {
+				ns[0].SetHasPairs()
+				ns[0].Pairs = r.Bytes(65535 - r.Intn(3))
+				ns[0].PairsSize = uint16(len(ns[0].Pairs))
 			}
+			big = true
+		}
+		o := caseOpts{kind: "append-read-scan", pick: -1}
+		if i%2 == 0 {
+			o.tscans = r.Range(1, 2)
+		}
+		if i%2 == 1 && !big {
+			o.clean = true
+		}
+		if i%3 == 0 && !big {
+			o.kind = "append-read-scan-flip-copy"
+			o.flips = true
+			o.allBits = thorough
+			o.dirty = 2
 		}
 		if violate {
-			kind = "contract-violation"
+			o.kind = "contract-violation"
 		}
-		runCase(out, version, prefix, ns, flips, kind)
+		runCase(out, r, version, prefix, ns, o)
 	}
 	out.Write()
 }
